@@ -30,15 +30,15 @@ type Oblig struct {
 
 // CheckSpec describes the check of one property.
 type CheckSpec struct {
-	ID       string
-	Props    []string // active assertion groups
-	Obligs   func(tier string) []Oblig
-	Bounds   func(tier string) map[string]interface{}
-	Goals    []string // cover goals expected on the unchanged tree
-	Assume   []string
-	Stubs    []string
-	Outside  []string
-	Deadline func(tier string) time.Duration
+	ID          string
+	Props       []string // active assertion groups
+	Obligs      func(tier string) []Oblig
+	Bounds      func(tier string) map[string]interface{}
+	Goals       []string // cover goals expected on the unchanged tree
+	Assume      []string
+	Stubs       []string
+	Outside     []string
+	Deadline    func(tier string) time.Duration
 	ValidateAll bool // replay every sampled path natively (conformance checks)
 }
 
@@ -406,17 +406,17 @@ func checkMain(args []string) int {
 	// aggregate
 	agg := struct {
 		paths, completed, stopped, panics, unsup, unknown, asserts, decisions int
-		queries, sat, unsat, qunknown                                          int
-		solverMs                                                               float64
-		stopReasons, panicMsgs, unsupMsgs                                      map[string]int
-		covers                                                                 map[string]bool
-		funcs                                                                  map[string]bool
-		samples                                                                []interp.Sample
-		viols                                                                  []violRec
-		obsClasses                                                             map[int]map[string]map[string][]uint64 // oblig -> tag -> hex -> vector
-		errs                                                                   []string
-		tasks                                                                  int
-		obligPaths                                                             map[int]int
+		queries, sat, unsat, qunknown                                         int
+		solverMs                                                              float64
+		stopReasons, panicMsgs, unsupMsgs                                     map[string]int
+		covers                                                                map[string]bool
+		funcs                                                                 map[string]bool
+		samples                                                               []interp.Sample
+		viols                                                                 []violRec
+		obsClasses                                                            map[int]map[string]map[string][]uint64 // oblig -> tag -> hex -> vector
+		errs                                                                  []string
+		tasks                                                                 int
+		obligPaths                                                            map[int]int
 	}{stopReasons: map[string]int{}, panicMsgs: map[string]int{}, unsupMsgs: map[string]int{}, covers: map[string]bool{}, funcs: map[string]bool{},
 		obsClasses: map[int]map[string]map[string][]uint64{}, obligPaths: map[int]int{}}
 
@@ -690,7 +690,7 @@ func checkMain(args []string) int {
 		if len(agg.samples) > 200 && !spec.ValidateAll {
 			step = len(agg.samples) / 200
 		}
-		for i := (seed % step + step) % step; i < len(agg.samples); i += step {
+		for i := (seed%step + step) % step; i < len(agg.samples); i += step {
 			s := agg.samples[i]
 			if s.Outcome != "ok" {
 				continue
